@@ -155,7 +155,7 @@ theorem push_wait_free (c : Cfg) {s : State} (h : Reach c s) (t n : Nat) (hp : s
 
 /-- **pop_all is wait-free**: a single `xchg`, always enabled for a thread that holds the pop
 right (its buffer drained: at most one own flush) -/
-theorem popAll_one_step (c : Cfg) {s : State} (t : Nat) (hp : s.pc t = .idle) (hr : hasRight c s t)
+theorem popAll_one_step (c : Cfg) {s : State} (t : Nat) (hp : s.pc t = .idle) (hr : hasRightAll c s t)
     (hb : s.buf t = []) (hv : s.priv t = []) :
     ∃ s', step c s (.popAll t) = some s' ∧ s'.pc t = .idle ∧ s'.head = END := by
   simp [step, hp, hr, hb, hv]
@@ -215,28 +215,28 @@ stores have reached memory -/
 def Quiet (s : State) (t : Nat) : Prop := ∀ u, u ≠ t → s.pc u = .idle ∧ s.buf u = []
 
 theorem quiet_own_step (c : Cfg) {s s' : State} {l : Label} {t : Nat} (hq : Quiet s t)
-    (st : step c s l = some s') (hl : l.tid = t) : Quiet s' t := by
+    (st : step c s l = some s') (hl : l.tid = some t) : Quiet s' t := by
   intro u hu
-  have := step_frame c st u (by rw [hl]; exact Ne.symm hu)
+  have := step_frame c st u (by rw [hl]; intro e; injection e with e; exact hu e.symm)
   rw [this.1, this.2.1]
   exact hq u hu
 
 def nbQ (c : Cfg) (t : Nat) (s : State) : Prop :=
-  Reach c s ∧ Quiet s t ∧
+  c.WF ∧ Reach c s ∧ Quiet s t ∧
   (s.pc t = .popLd false ∨ (∃ h, s.pc t = .popSync false h ∧ s.head = h) ∨
    (∃ h nx, s.pc t = .popCas false h nx ∧ s.head = h) ∨
    (s.pc t = .idle ∧ s.ret t ≠ .wouldblock))
 
 theorem nbq_own_step (c : Cfg) (t : Nat) (s : State) (hP : nbQ c t s) (hi : s.pc t ≠ .idle) :
     ∃ l s', ownNext s t = some l ∧ step c s l = some s' ∧ nbQ c t s' ∧ popMu s' t < popMu s t := by
-  obtain ⟨hr, hq, hpc⟩ := hP
+  obtain ⟨wf, hr, hq, hpc⟩ := hP
   rcases hpc with hp | ⟨h0, hp, hh⟩ | ⟨h0, nx, hp, hh⟩ | ⟨hp, _⟩
   · obtain ⟨s', hst, h1, h2⟩ := en_popLd c hp
     have hhd : s'.head = s.head ∨ s'.pc t = .idle := by
       rcases h2 with ⟨_, h3, _⟩ | ⟨he, _⟩
       · exact Or.inr h3
       · left; simp only [step, hp, he, if_false, Option.some.injEq] at hst; subst hst; rfl
-    refine ⟨.popLd t, s', by simp [ownNext, hp], hst, ⟨Reach.step hr hst, quiet_own_step c hq hst rfl, ?_⟩, ?_⟩
+    refine ⟨.popLd t, s', by simp [ownNext, hp], hst, ⟨wf, Reach.step hr hst, quiet_own_step c hq hst rfl, ?_⟩, ?_⟩
     · rcases h2 with ⟨_, h3, h4⟩ | ⟨he, h3⟩
       · exact Or.inr (Or.inr (Or.inr ⟨h3, by rw [h4]; simp⟩))
       · refine Or.inr (Or.inl ⟨_, h3, ?_⟩)
@@ -247,8 +247,8 @@ theorem nbq_own_step (c : Cfg) (t : Nat) (s : State) (hP : nbQ c t s) (hi : s.pc
   · obtain ⟨s', hst, h1, h1', h2⟩ := en_popSync_nb c hp
     have hrd : rd s t h0 ≠ 0 := by
       intro h0z
-      obtain ⟨⟨u, o, hpend⟩, _, _⟩ := pop_incomplete c hr t false h0 hp h0z
-      have I := inv_reach c hr
+      obtain ⟨⟨u, o, hpend⟩, _, _⟩ := pop_incomplete c wf hr t false h0 hp h0z
+      have I := inv_reach c wf hr
       by_cases hu : u = t
       · subst hu
         rcases hpend with h3 | ⟨h3, h4⟩
@@ -262,7 +262,7 @@ theorem nbq_own_step (c : Cfg) (t : Nat) (s : State) (hP : nbQ c t s) (hi : s.pc
         rcases hpend with h3 | ⟨h3, _⟩
         · rw [this.1] at h3; simp at h3
         · rw [this.2] at h3; simp at h3
-    refine ⟨.popSync t, s', by simp [ownNext, hp], hst, ⟨Reach.step hr hst, quiet_own_step c hq hst rfl, ?_⟩, ?_⟩
+    refine ⟨.popSync t, s', by simp [ownNext, hp], hst, ⟨wf, Reach.step hr hst, quiet_own_step c hq hst rfl, ?_⟩, ?_⟩
     · rcases h2 with ⟨h3, _⟩ | ⟨_, h3⟩
       · exact absurd h3 hrd
       · exact Or.inr (Or.inr (Or.inl ⟨_, _, h3, h1'.trans hh⟩))
@@ -271,7 +271,7 @@ theorem nbq_own_step (c : Cfg) (t : Nat) (s : State) (hP : nbQ c t s) (hi : s.pc
     | nil =>
       obtain ⟨s', hst, h1, h2⟩ := en_popCas_nb c hp hb
       refine ⟨.popCas t, s', by simp [ownNext, hp, hb], hst,
-        ⟨Reach.step hr hst, quiet_own_step c hq hst rfl, Or.inr (Or.inr (Or.inr ⟨h1, ?_⟩))⟩,
+        ⟨wf, Reach.step hr hst, quiet_own_step c hq hst rfl, Or.inr (Or.inr (Or.inr ⟨h1, ?_⟩))⟩,
         by (simp [popMu, hp, h1] <;> omega)⟩
       rcases h2 with ⟨_, h3⟩ | ⟨h3, _⟩
       · rw [h3]; simp
@@ -282,21 +282,21 @@ theorem nbq_own_step (c : Cfg) (t : Nat) (s : State) (hP : nbQ c t s) (hi : s.pc
         obtain ⟨a, v⟩ := e
         simp only [step, hb, Option.some.injEq] at hst; subst hst; rfl
       exact ⟨.flush t, s', by simp [ownNext, hp, hb], hst,
-        ⟨Reach.step hr hst, quiet_own_step c hq hst rfl,
+        ⟨wf, Reach.step hr hst, quiet_own_step c hq hst rfl,
           Or.inr (Or.inr (Or.inl ⟨h0, nx, h1.trans hp, hhd.trans hh⟩))⟩,
         by (simp [popMu, hp, h1, h2, hb] <;> omega)⟩
   · exact absurd hp hi
 
 /-- **never WOULDBLOCK when no other operation is in progress**: with every other thread
 outside the API (and its stores flushed), a non-blocking pop returns a node or NULL -/
-theorem nonblocking_pop_quiet_succeeds (c : Cfg) {s : State} (h : Reach c s) (t : Nat)
+theorem nonblocking_pop_quiet_succeeds (c : Cfg) (wf : c.WF) {s : State} (h : Reach c s) (t : Nat)
     (hp : s.pc t = .popLd false) (hq : Quiet s t) :
     ∃ k s', k ≤ 4 ∧ solo c t k s = some s' ∧ s'.pc t = .idle ∧ s'.ret t ≠ .wouldblock := by
   have hB := (buflen_reach c h).le1 t (by simp [hp, Pc.isPushX])
   obtain ⟨k, s', hk, hs, hi, hP'⟩ := solo_measure c t (popMu · t) (nbQ c t) (nbq_own_step c t) 4 s
-    ⟨h, hq, Or.inl hp⟩ (by simp only [popMu, hp]; omega)
+    ⟨wf, h, hq, Or.inl hp⟩ (by simp only [popMu, hp]; omega)
   refine ⟨k, s', hk, hs, hi, ?_⟩
-  rcases hP'.2.2 with h1 | ⟨_, h1, _⟩ | ⟨_, _, h1, _⟩ | ⟨_, h1⟩
+  rcases hP'.2.2.2 with h1 | ⟨_, h1, _⟩ | ⟨_, _, h1, _⟩ | ⟨_, h1⟩
   · rw [hi] at h1; simp at h1
   · rw [hi] at h1; simp at h1
   · rw [hi] at h1; simp at h1
@@ -309,13 +309,13 @@ theorem nonblocking_next_one_step (c : Cfg) {s : State} (t : Nat) (hp : s.pc t =
 
 
 /-- … and with no push in flight it returns the next node (or NULL at the end), not WOULDBLOCK -/
-theorem nonblocking_next_quiet_succeeds (c : Cfg) {s : State} (h : Reach c s) (t : Nat)
+theorem nonblocking_next_quiet_succeeds (c : Cfg) (wf : c.WF) {s : State} (h : Reach c s) (t : Nat)
     (hp : s.pc t = .idle) (hc : s.cur t ≠ END) (hq : Quiet s t) :
     ∃ s', step c s (.iterNext t false) = some s' ∧ s'.ret t ≠ .wouldblock ∧ s'.cur t ≠ s.cur t := by
-  have I := inv_reach c h
+  have I := inv_reach c wf h
   have hrd : rd s t (s.cur t) ≠ 0 := by
     intro h0z
-    obtain ⟨⟨u, o, hpend⟩, _, _⟩ := iter_incomplete c h t hp hc h0z
+    obtain ⟨⟨u, o, hpend⟩, _, _⟩ := iter_incomplete c wf h t hp hc h0z
     by_cases hu : u = t
     · subst hu
       rcases hpend with h3 | ⟨h3, h4⟩
@@ -335,7 +335,7 @@ theorem nonblocking_next_quiet_succeeds (c : Cfg) {s : State} (h : Reach c s) (t
       s'.ret t = (if rd s t (s.cur t) = END then .null else .node (rd s t (s.cur t)) false) := by
     simp [step, hp, hc, hrd]
   obtain ⟨s', hst, h1, h2, h3⟩ := hst
-  have hp' := (inv_reach c (Reach.step h hst)).pchain t
+  have hp' := (inv_reach c wf (Reach.step h hst)).pchain t
   rw [h1, h2, e1, List.tail_cons] at hp'
   refine ⟨s', hst, ?_, ?_⟩
   · rw [h3]; split <;> simp
